@@ -41,7 +41,7 @@ def configs(tier, seed):
             out.append(dict(part=part, layer=2, x=list(x), y=list(y), rounding='trunc'))
     # repr method of x / y: float division by a concrete divisor code (the dividend is symbolic)
     rp = [(s, n, f) for s in (True, False) for n in (2, 5, 7, 8) for f in sorted(set([0, n // 2, n]))]
-    for _ in range(40 if tier == 'quick' else 800):
+    for _ in range(40 if tier == 'quick' else 300):
         x, y = rng.choice(rp), rng.choice(rp)
         lo, hi = SP.limits(y[0], y[1])
         cands = [c for c in range(lo, hi + 1) if c != 0]
